@@ -378,6 +378,12 @@ func TestC01Sock(t *testing.T) {
 	completed := false
 	defer func() { rec.Finish(completed) }()
 	if rec.Env.Replay != "" {
+		common.InstallLoggerForOddShards(common.ReplayShard(rec.Env.Replay))
+	}
+	if common.InstallLoggerForOddShards(rec.Env.Shard) {
+		rec.Class("log target installed (diagnostic lines executed)")
+	}
+	if rec.Env.Replay != "" {
 		common.ReplayOnly(t, rec, c01SockRun)
 		completed = true
 		return
